@@ -27,6 +27,11 @@ EXPIRY.update(name="expiry", design=[],
               gen=dict(module="MCCore.tla", cfgs=[("gen_core_expire.cfg", 1.0)], quick=(32, 40), thorough=(320, 60)),
               harness=dict(family="core", chains=3, links=T3, params={"short": [["C", "A"]]}))
 
+EXPIRY_RELAY = copy.deepcopy(F.CORE)
+EXPIRY_RELAY.update(name="expiryrelay", design=[],
+                    gen=dict(module="MCCore.tla", cfgs=[("gen_core_expire_relay.cfg", 1.0)], quick=(32, 40), thorough=(320, 60)),
+                    harness=dict(family="core", chains=3, links=T3, params={"short": [["C", "B"]]}))
+
 PROPS = ["C16", "C14", "C20"]
 
 
@@ -40,7 +45,8 @@ def check(prop, tier, seed, replay):
         if replay:
             return T.replay(prop, EXPIRY, replay)
         from . import fam_status as S
-        r = T.merge_runs([(EXPIRY, T.run_family(EXPIRY, tier, seed)), (S.FAM, T.run_family(S.FAM, tier, seed))])
+        r = T.merge_runs([(EXPIRY, T.run_family(EXPIRY, tier, seed)), (EXPIRY_RELAY, T.run_family(EXPIRY_RELAY, tier, seed)),
+                          (S.FAM, T.run_family(S.FAM, tier, seed))])
         return T.verdict(prop, EXPIRY, tier, seed, r)
     if prop == "C20":
         return check_c20(tier, seed, replay)
